@@ -11,7 +11,8 @@
 (*   [k |-> "cond", w, c, t, f]    t if c # 0 else f                                *)
 (* An environment gives identifier values (byte lists) and a memory that is a      *)
 (* fixed function of the address:  byte(A) = (A[0..7] + 31*A[8..15] + seed) % 256  *)
-(* so that every address is readable and the python side can mirror it exactly.    *)
+(* so that every address is readable and the python side can mirror it exactly;    *)
+(* env.wr lists the bytes written since (IRMachine.tla), empty for pure evaluation. *)
 (* Division by zero is undefined: evaluation then yields ok = FALSE.               *)
 EXTENDS BV, TLC
 
@@ -22,13 +23,17 @@ Unknown == [ok |-> FALSE, unk |-> TRUE, v |-> <<>>]       \* operator outside th
 MemByte(A, seed) ==
   LET n0 == ToNat(SubSeq(ZeroExt(A, 16), 1, 8)) n1 == ToNat(SubSeq(ZeroExt(A, 16), 9, 16))
   IN FromNat((n0 + 31 * n1 + seed) % 256, 8)
+(* bytes written since the initial state: env.wr is a sequence of <<64-bit address, byte>> pairs, most recent first *)
+RECURSIVE WrLookup(_, _, _)
+WrLookup(A64, wr, i) == IF i > Len(wr) THEN <<>> ELSE IF wr[i][1] = A64 THEN wr[i][2] ELSE WrLookup(A64, wr, i + 1)
+MemByteE(A, env) == LET r == WrLookup(ZeroExt(A, 64), env.wr, 1) IN IF r # <<>> THEN r ELSE MemByte(A, env.seed)
 RECURSIVE MemBytes(_, _, _)
-MemBytes(A, n, seed) == IF n = 0 THEN <<>>
-                        ELSE <<MemByte(A, seed)>> \o MemBytes(Add(A, One(Len(A))), n - 1, seed)
+MemBytes(A, n, env) == IF n = 0 THEN <<>>
+                       ELSE <<MemByteE(A, env)>> \o MemBytes(Add(A, One(Len(A))), n - 1, env)
 RECURSIVE RevSeq(_)
 RevSeq(q) == IF q = <<>> THEN <<>> ELSE RevSeq(Tail(q)) \o <<Head(q)>>
 MemRead(A, w, env) ==
-  LET bs == MemBytes(A, w \div 8, env.seed)
+  LET bs == MemBytes(A, w \div 8, env)
   IN Concat(IF env.endian = "big" THEN RevSeq(bs) ELSE bs)
 
 B1(b) == <<B2I(b)>>
